@@ -33,13 +33,19 @@ MixWheres == IF Quick THEN {"program"} ELSE {"program", "fdecl", "callback"}
 Digit == <<"0", "1", "2", "3", "4", "5", "6", "7">>
 MixTemplates == {"mx_" \o f \o "_" \o Digit[k + 1] \o "_" \o w : f \in MixForms, k \in 0..7, w \in MixWheres}
 MixNs == {1, 9, 200, 254, 255, 256, 257, 300, 511, 512, 1000} \cup (IF Quick THEN {} ELSE {253, 258, 509, 510, 513, 765, 766, 767, 2000})
-Templates == OperandTemplates \cup SizeTemplates \cup WrapTemplates \cup ExplicitTemplates \cup MixTemplates
+\* a switch with n literal cases (numbers 0..n-1, then the strings "s0".."s2") selected by a discriminant of every primitive
+\* kind: case selection is strict equality whatever the number of cases (a dispatch table for long switches must not let
+\* true find case 1, "1" find case 1, or miss -0 / 1.0)
+SwdKinds == {"true", "false", "str1", "one", "negzero", "nan", "null", "undef", "float1", "strs1", "cmp"}
+SwdTemplates == {"swd_" \o k : k \in SwdKinds}
+SwdNs == {1, 2, 8, 15, 16, 17, 32, 100, 200} \cup (IF Quick THEN {} ELSE {3, 64, 128, 250, 252, 256, 300})
+Templates == OperandTemplates \cup SizeTemplates \cup WrapTemplates \cup ExplicitTemplates \cup MixTemplates \cup SwdTemplates
 
 OperandNs == {1, 2, 127, 128, 200} \cup (250..260) \cup (IF Quick THEN {300, 1000} ELSE {300, 511, 512, 513, 1000, 5000, 65537})
 SizeNs == {1, 2, 50} \cup (IF Quick THEN {1000, 6000, 8192, 11000}
                            ELSE {1000, 3000, 5000, 5460, 5461, 5462, 6000, 6553, 6554, 7000, 7281, 7282, 8000, 8190, 8191, 8192, 8193, 9000, 9362, 9363, 10000, 10922, 10923, 11000, 13107, 13108, 16384, 20000, 33000, 100000})
 WrapNs == {1, 200, 255, 256, 257} \cup (IF Quick THEN {} ELSE {254, 258, 300, 600, 1000})
-Ns(t) == IF t \in OperandTemplates THEN OperandNs ELSE IF t \in WrapTemplates THEN WrapNs ELSE IF t \in MixTemplates THEN MixNs ELSE SizeNs
+Ns(t) == IF t \in OperandTemplates THEN OperandNs ELSE IF t \in WrapTemplates THEN WrapNs ELSE IF t \in MixTemplates THEN MixNs ELSE IF t \in SwdTemplates THEN SwdNs ELSE SizeNs
 PayloadOf(t) == CHOOSE p \in Payloads : \E w \in Wraps : t = "w_" \o p \o "_" \o w
 
 \* closed form of the template's result (small integers; see checks/c14_driver.py for the program text)
@@ -47,6 +53,10 @@ M7(x) == x % 7
 Closed(t, n) ==
   CASE t \in WrapTemplates -> (IF PayloadOf(t) = "consts" THEN VStr(U("c") \o IntText(n - 1)) ELSE VInt(n))
     [] t \in MixTemplates -> VInt(n)
+    [] t \in {"swd_true", "swd_false", "swd_str1", "swd_nan", "swd_null", "swd_undef", "swd_cmp"} -> VStr(U("none"))
+    [] t \in {"swd_one", "swd_float1"} -> VStr(IF n >= 2 THEN U("c1") ELSE U("none"))
+    [] t = "swd_negzero" -> VStr(U("c0"))
+    [] t = "swd_strs1" -> VStr(U("t1"))
     [] t = "dowhile_continue" -> VInt(n)
     [] t = "for_continue" -> VInt(n)
     [] t = "switch_nobreak" -> VInt(n + 107)
